@@ -274,3 +274,36 @@ def check_fresh_handles(ctx, F, rule="E-FFI.fresh"):
                                 "returns one of its argument handles without taking a reference of its own: the caller "
                                 "will unref both the argument and the result, releasing one reference twice"))
     return n
+
+
+def check_zip_before_filter(ctx, F, rule="E-FFI.zip"):
+    """Parallel C arrays (handles and their names, variables and their values) are paired by position.  The pairing
+    (`zip`) must happen before elements are dropped from either side: `a.filter(..).zip(b)` pairs the survivors of
+    `a` with the *unfiltered* `b`, shifting every later pair."""
+    n = 0
+    SHRINK = ("filter", "filter_map", "skip_while", "take_while", "flat_map", "flatten", "skip", "step_by")
+    for fid, h in sorted(F.hir.items()):
+        if not fid.startswith("oxidd_ffi_c::"):
+            continue
+        for c in H.walk(h["body"]):
+            if c.get("k") == "mcall" and c.get("name") == "zip":
+                n += 1
+                bad = None
+                for side, e in (("receiver", c["r"]), ("argument", c["a"][0] if c.get("a") else None)):
+                    x = e
+                    while isinstance(x, dict):
+                        if x.get("k") == "mcall":
+                            if x.get("name") in SHRINK:
+                                bad = (side, x["name"])
+                                break
+                            x = x["r"]
+                        elif x.get("k") in ("ref", "use", "cast"):
+                            x = x["e"]
+                        else:
+                            break
+                ctx.ob(rule, "%s:%s" % (rule, re.sub(r"\{closure#\d+\}", "{closure}", F.nice(fid))), bad is None,
+                       "%s (%s, line %s): %s" % (F.nice(fid), F.where(fid), c.get("ln"),
+                                                 "parallel sequences are zipped before any element is filtered out" if bad is None else
+                                                 "the %s of `zip` has already been shortened by `%s`: later elements are paired "
+                                                 "with the wrong partner" % bad))
+    return n
